@@ -17,7 +17,7 @@ USES_BATCH = True
 RULE = ('~230 valid base queries covering every clause and every alias family x renderings: every subset of whitespace '
         'split points when the query has <= 9 words (else all single and double split points, fully split and fully '
         'joined), case variants {lower, UPPER, Capitalised} of each word token one at a time and all at once, the fully re-cased query again under every split set, every alias '
-        'of every documented table substituted one occurrence at a time (thorough: all pairs), round<->curly brackets, '
+        'of every documented table substituted one occurrence at a time (thorough: all pairs), round<->curly brackets (all at once, and every single pair and every two pairs on their own, so that styles are mixed and nested), '
         'leading select, optional commas, explicit asc, () after an argument-less function; non-trivial = rendering differs '
         'textually from the base')
 MC_NOTE = ('state = one rendering of a base query; the rendering lattice of each base query is explored completely; '
@@ -65,6 +65,8 @@ EXTRA = [
     'ext , lower(ext) , count(*) from . group by ext , lower(ext) order by 1', 'is_dir , ext , size , count(*) from . group by is_dir , ext , size order by 2',
     'lower(ext) , length(name) , count(*) from . group by lower(ext) , length(name) order by 1 , 2',
     'name , size from sub , e order by size desc , name', 'ext , count(*) from . , sub group by ext order by ext',
+    'name , year(curdate()) , length(upper(name)) from . limit 2', 'name , concat(curdate() , name) from . limit 2',
+    'name from . where ( length(lower(name)) > 3 and ( size > 1 or year(curdate()) > 2000 ) )',
 ]
 
 
@@ -217,6 +219,22 @@ def optional_renderings(q):
         yield [t.replace('(', '{').replace(')', '}') for t in q], 'curly'
     if '{' in s:
         yield [s.replace('{', '(').replace('}', ')')], 'round'
+    # every single bracket pair switched to the other style on its own (styles may be mixed and nested)
+    stack, pairs_ = [], []
+    for i, ch in enumerate(s):
+        if ch in '({':
+            stack.append(i)
+        elif ch in ')}' and stack:
+            pairs_.append((stack.pop(), i))
+    for a, b_ in pairs_:
+        oc = '{}' if s[a] == '(' else '()'
+        yield [s[:a] + oc[0] + s[a + 1:b_] + oc[1] + s[b_ + 1:]], 'mixed-brackets'
+    for (a, b_), (c_, d_) in itertools.combinations(pairs_, 2):
+        t = list(s)
+        for x, y in ((a, b_), (c_, d_)):
+            oc = '{}' if s[x] == '(' else '()'
+            t[x], t[y] = oc[0], oc[1]
+        yield [''.join(t)], 'mixed-brackets'
     if q[0].lower() == 'select':
         yield [' '.join(q[1:])], 'select'
         yield q[1:], 'select'
@@ -226,7 +244,12 @@ def optional_renderings(q):
         yield ['SELECT ' + s], 'select'
     # commas between columns / order keys are optional
     stop = next((i for i, t in enumerate(q) if t.lower() in ('from', 'where', 'group', 'order', 'limit', 'into')), len(q))
-    head = [t for t in q[:stop] if t != ',']
+    head, depth = [], 0
+    for t in q[:stop]:
+        if t == ',' and depth == 0:
+            continue        # only the commas between columns are optional, not those between function arguments
+        depth += sum(t.count(ch) for ch in '({') - sum(t.count(ch) for ch in ')}')
+        head.append(t)
     if len(head) != stop:
         yield [' '.join(head + q[stop:])], 'commas'
         yield head + q[stop:], 'commas'
